@@ -505,6 +505,7 @@ func main() {
 	}
 	for name, src := range goProgs {
 		for _, rs := range []string{"8", "16"} {
+			src := strings.ReplaceAll(src, "uint8", "uint"+rs) // the variable type must be the register type
 			cli("bondgo-"+name+"-"+rs, "bondgo", [][]string{{"bondgo", "-input-file", "p.go", "-save-machine", "m.json", "-register-size", rs}}, map[string]string{"p.go": src}, "m.json")
 			cli("bondgo-mpm-"+name+"-"+rs, "bondgo-mpm", [][]string{{"bondgo", "-mpm", "-input-file", "p.go", "-save-bondmachine", "bm.json", "-register-size", rs}}, map[string]string{"p.go": src}, "bm.json")
 		}
